@@ -107,4 +107,11 @@ def fromDer (s : Bytes) : Except Err Found :=
                     cofactor := some r.h.toNat }
   | none => .ok { name := "unknown", p := q.p, a := q.a, b := q.b, gx := gx, gy := gy, order := q.order, cofactor := q.cofactor }
 
+/-- `Curve.from_der(data)` with every encoding allowed: explicit parameters for a SEQUENCE, otherwise the OID of a named curve -/
+def curveFromDer (s : Bytes) : Except Err Found :=
+  if isSequence s then fromDer s else
+  KeyDer.curveFromDer s >>= fun r =>
+  .ok { name := r.name, p := r.p.toNat, a := r.a, b := r.b, gx := r.gx.toNat, gy := r.gy.toNat, order := r.n.toNat,
+        cofactor := some r.h.toNat }
+
 end Bec2Verif.CurveDer
